@@ -124,6 +124,8 @@ class Cutter(ast.NodeTransformer):
             f"    else:\n"
             f"        __HAVOC__\n"
             f"        __pv.assume_inv({k}, locals(), __seq{k}, __pv.length(__seq{k}))\n"
+            f"        if __pv.bind_last({k}, __seq{k}):\n"
+            f"            __TARGET__ = __pv.elem({k}, __seq{k}, __pv.length(__seq{k}) - 1)\n"
             f"        __pv.at_exit({k}, locals(), __seq{k})\n"
         )
         havoc = self._havoc_stmts(k, assigned)
